@@ -396,6 +396,8 @@ CHECKS = {
         assumptions=COMMON + [SYNCTEST_ASSUMPTION],
         parts=[dict(name="random", run="TestC05Random", checks=dict(quick=2500, thorough=30000), shards=dict(quick=4, thorough=16)),
                # ONCE calls / POLL rounds racing writers of the matched leaves on the real scheduler
+               # answers of 9000-70000 leaves to a reader slower than the walk (each case costs seconds)
+               dict(name="huge", run="TestC05Huge", checks=dict(quick=2, thorough=8), shards=dict(quick=2, thorough=8)),
                dict(name="stress", run="TestC05Stress", rapid=False, args=dict(quick=["-c05.stress=30"], thorough=["-c05.stress=600"]), shards=dict(quick=2, thorough=8))],
     ),
     "C07": dict(
@@ -788,7 +790,7 @@ CHECKS = {
               "random: 1-40 ops, depth<=4 over {a,b,c}, relative addressing, retained leaf handles). "
               "non-trivial = the sequence contains a failed Add, or a successful Add beneath a branch that an earlier delete pruned; "
               "distinct = distinct hash of the op sequence"),
-        assumptions=COMMON + ["stored values are non-nil (nil is the tree's 'empty' sentinel): ints in the exhaustive and random parts, values of seven kinds in the rich part", "stored values are non-nil INTERFACE values (typed nil pointers/maps/slices/funcs are values and are generated); tree-related values (Children() maps, nodes, leaf handles) are taken from another tree, never from the tree they are stored in (a value reaching its own tree is a cycle, and the tree's error texts print values with %#v)", "Query visitors: only the path slice handed to the LAST invocation of a query is required to stay unchanged afterwards (on the unchanged tree the invocations of one Query may share a backing array from depth 4 on; the paths are compared at the instant of each invocation)", "Add/Get paths contain no element equal to '*' (documented precondition)"],
+        assumptions=COMMON + ["stored values are non-nil (nil is the tree's 'empty' sentinel): ints in the exhaustive and random parts, values of seven kinds in the rich part", "stored values are non-nil INTERFACE values (typed nil pointers/maps/slices/funcs are values and are generated); tree-related values (Children() maps, nodes, leaf handles) are taken from another tree, never from the tree they are stored in (a value reaching its own tree is a cycle, and the tree's error texts print values with %#v)", "Query visitors: only the path slice handed to the LAST invocation of a query is required to stay unchanged afterwards (on the unchanged tree the invocations of one Query may share a backing array from depth 4 on; the paths are compared at the instant of each invocation)", "Add/Get paths contain no element equal to '*' (documented precondition)", "reading of 'restricted by the condition' (doc comments of DeleteConditional / WalkDeleted): one call of a conditional delete puts every leaf a query for the same path reports to the condition exactly once and nothing else; the leaves for which it answered yes in that call are the ones removed and returned / handed to f; conditions and visitors never call into the tree (it holds its locks while it calls them)"],
         parts=[
             dict(name="exhaustive", run="TestC09Exhaustive", rapid=False),
             dict(name="random", run="TestC09Random", checks=dict(quick=6000, thorough=40000), shards=dict(quick=1, thorough=16)),
@@ -797,6 +799,9 @@ CHECKS = {
             # ownership of the slices/maps crossing the API boundary, both directions: arguments built in re-used buffers (offset, spare capacity) and overwritten after the call,
             # results kept / rewritten in place / appended to, everything kept re-compared after every later op and at the end of the sequence
             dict(name="alias", run="TestC09Alias", checks=dict(quick=5000, thorough=40000), shards=dict(quick=1, thorough=8)),
+            # callbacks with state and a call protocol: conditions of DeleteConditional/WalkDeleted that are not predicates of the value (budget, one-shot permit, skip-k, alternate,
+            # once per value, state carried over two deletes); what the condition answered in the call against what the delete removed/returned/handed to f; recording/stopping visitors
+            dict(name="callback", run="TestC09Callback", checks=dict(quick=2000, thorough=30000), shards=dict(quick=1, thorough=8)),
         ],
     ),
 }
@@ -1000,9 +1005,21 @@ EXT2 = {
                             "resemble the tree's representation: Children() snapshots and hand-built map[string]*ctree.Tree (empty, nil, with nil entries), *ctree.Tree, *ctree.Leaf (incl. nil pointers), "
                             "ctree.Tree/ctree.Leaf by value, funcs, named map types/pointer to map/channel, empty-looking values (\"\", false, 0, nil slices, typed nil pointers); the model treats them as "
                             "opaque (identity for maps/funcs/channels/pointers), compares GetLeafValue/GetLeaf/Get/IsBranch/Children/Walk/Query/WalkSorted after every op, Delete/DeleteConditional/"
-                            "WalkDeleted with glob paths and a condition on the dynamic type, and that the tree the values were taken from is never modified."),
+                            "WalkDeleted with glob paths and a condition on the dynamic type, and that the tree the values were taken from is never modified."
+                            " Part callback (callbacks with state and a call protocol): the conditions of DeleteConditional / WalkDeleted are state machines drawn as data - a budget of k yes-answers (k=1: one-shot "
+                            "permit), no to the first k consultations, every other consultation, once per value, even values at most k times, the state optionally carried into the next conditional delete - next to "
+                            "a control group of predicates; values all over 1..1000 or over 1..4/1..6 (several matching leaves hold the same value). Nothing the tree does not promise is predicted (which leaves a "
+                            "budget picks depends on the visiting order); judged per call, as multisets of values: the condition is consulted once per matching leaf and for nothing else; f of WalkDeleted is never "
+                            "called for a value before the condition accepted it and in the end once per yes-answer; the paths DeleteConditional returns are exactly the leaves gone from the tree (Walk before/after); "
+                            "every leaf gone matched the path; the values of the leaves gone are the yes-answers (so the matching leaves that stayed are the no-answers); predicates remove what the model predicts; "
+                            "the model then drops exactly the leaves gone and the full observation set is compared after every op (pruning), 'readd' ops Add at, above or below a leaf the last delete removed. "
+                            "Visitors of Query/Walk/WalkSorted record and may stop at their k-th invocation: once per reported leaf, never again after their error, the handle they got reads the reported value "
+                            "after the visit. The exhaustive, random, rich and alias parts also count: their (predicate) conditions must be consulted once per matching leaf."),
+                technique="; conditional deletes under stateful conditions judged by consistency between the condition's answers and the delete's effects",
                 rule=(" alias: cases are 1-40 ops with caller-owned buffers; non-trivial = a path slice obtained from the tree was kept across a later op and an argument buffer was re-used or overwritten."
-                      " rich (values): also non-trivial = a leaf holding a tree-related value (kinds 7-13) was overwritten, deleted, or an Add went through it.")),
+                      " rich (values): also non-trivial = a leaf holding a tree-related value (kinds 7-13) was overwritten, deleted, or an Add went through it."
+                      " callback: cases are 2-8 adds followed by 1-24 ops (add, readd, Delete, DeleteConditional, WalkDeleted, Query, Walk, WalkSorted); non-trivial = a conditional delete whose condition is "
+                      "not a predicate of the value accepted at least one leaf.")),
     "C11": dict(level_text=(" Further: backlogs of 1000-9000 items worked down to fractions of their peak, a hot item inserted up to 70000 extra times, items of six kinds incl. the nil interface; stress: "
                             "Close from several goroutines at once and Close under fire (every insertion that returned before Close was called is delivered). Part window: the consumer parked between "
                             "its emptiness check and its select while inserts complete, the queue is closed and another goroutine holds the queue's mutex when it resumes; 24 repeats per case.")),
@@ -1112,7 +1129,8 @@ EXT3 = {
                             "implement (qos, encoding, per-subscription mode / sample_interval / heartbeat / suppress_redundant, drawn per subscription; also in C04/C07/C08/C14). Part stress "
                             "(free-running, real scheduler inside a synctest bubble): 1-4 client goroutines issue ONCE calls / POLL rounds back to back while one writer goroutine per hot leaf keeps "
                             "updating the leaves they match (value = serial number); every round carries every matching leaf, a static leaf with its value, a hot leaf with a serial number between the "
-                            "last update completed before the request and the last one started before its sync arrived; one sync per request, last; ONCE ends with success; glog verbosity 0-3 per workload."),
+                            "last update completed before the request and the last one started before its sync arrived; one sync per request, last; ONCE ends with success; glog verbosity 0-3 per workload. Part huge: a ONCE / POLL answer of 9000-65537 leaves queued behind a reader that takes "
+                            "1-9000 responses at a time and then reads freely: exactly the matching set, then the sync response."),
                 level_note="; stress part: schedules are the real scheduler's (a replay re-runs the workload 20 times); a deadlock is reported structurally (vstat.Watchdog), never by a timeout",
                 rule=" stress: a case is one workload (20-80 requests per client); non-trivial = >=2 hot leaves and >=20 completed rounds."),
     "C08": dict(level_text=(" Third structured shape (an eighth of the cases): a POLL client that stops reading and keeps sending 1-300 poll triggers (letting a send pass now and then) against an "
